@@ -135,6 +135,7 @@ MigReq(by, u, tgt, has) ==
     /\ UNCHANGED <<st, arg, tok, cst, starts, inYield, inpool, expect, rin>>
 \* ret: 0 accepted, 1 rejected: same pool, 2 rejected: not migratable, 3 "no target stream"
 MigRet(by, u, ret) ==
+    /\ mg[u].infl > 0                            \* a return belongs to a call
     /\ IF mg[u].exp = 9
        THEN CASE ret = 0 -> mg[u].able
               [] ret = 1 -> mg[u].able /\ mg[u].pend = NoPool
